@@ -564,6 +564,18 @@ def _hourly_ctor(recipe, hidx, y, temp_h, ghi, electric, obs, y_raw=None):
         return dict(cls=cls, how="from_series", args=[meter, temp], kwargs={"is_electricity_data": electric},
                     inputs=inputs)
     df = pd.DataFrame({"observed": y, "temperature": temp_h}, index=hidx)
+    if recipe.get("res") == 30 and role == "reporting" and len(df) > 4:
+        # half-hourly readings and weather: each hour's usage in two reads, the second one blank now and then (on its
+        # own pattern, whatever the alteration of the hourly usage), the temperature a little apart in the two halves
+        half = df.copy()
+        half.index = half.index + pd.Timedelta(minutes=30)
+        df["observed"] = df["observed"] / 2.0
+        half["observed"] = half["observed"] / 2.0
+        half["temperature"] = half["temperature"] + 0.4
+        gh = np.random.default_rng(_seed("half", recipe["mid"], len(df)))
+        if obs not in ("allnan", "absent"):
+            half.loc[half.index[gh.random(len(half)) < 0.05], "observed"] = np.nan
+        df = pd.concat([df, half]).sort_index(kind="stable")
     if obs == "absent":
         df = df.drop(columns=["observed"])
     return dict(cls=cls, how="init", args=[df], kwargs={"is_electricity_data": electric}, inputs=[df])
